@@ -1,34 +1,414 @@
+//! Simulator B (C02 C03 C07 C14): derived parsers in a fault-injecting world.
+//!
+//! Sub-commands (JSON summary on stdout):
+//!   batch  --prop P --seed S --start A --count N [--workers W] [--digests FILE] [--progress FILE] [--max-failures K]
+//!   sweep  --prop P [--workers W]        single-fault sweep: every seam call of canonical inputs x every fault kind
+//!   one    --prop P --seed S --index I   print one scenario and its judgement
+//!   replay FILE                          re-run the scenario of a replay file; exit 1 + VIOLATION line if it fails
+//!   check-stdin P                        judge a scenario given on stdin (used for isolated minimisation)
+
 mod corpus;
 mod gen;
 mod input;
+mod minimise;
 mod model;
 mod oracle;
 mod probes;
 mod run;
 mod schema;
+mod sweep;
 mod world;
 
-use simcore::run_seed;
+use std::collections::BTreeMap;
+use std::io::Write;
+use std::sync::atomic::{AtomicBool, Ordering};
+use std::sync::Mutex;
 
-fn main() {
-    run::install_panic_hook();
-    let args: Vec<String> = std::env::args().collect();
-    let seed: u64 = args.get(1).and_then(|s| s.parse().ok()).unwrap_or(1);
-    let n: u64 = args.get(2).and_then(|s| s.parse().ok()).unwrap_or(10);
-    let mode: &'static str = match args.get(3).map(|s| s.as_str()) { Some("wild") => "wild", Some("map") => "map", _ => "strict" };
+use serde::{Deserialize, Serialize};
+use serde_json::json;
+use simcore::pool::{run_parallel, PoolCfg};
+use simcore::{run_seed, Fnv, Stats};
+
+use oracle::Failure;
+use run::{Judged, Outcome, Scenario};
+
+#[derive(Clone, Debug, Serialize, Deserialize)]
+pub struct Replay {
+    pub format: u32,
+    pub property: String,
+    pub rule: String,
+    pub sim: String,
+    pub verif_seed: Option<u64>,
+    pub run_index: Option<String>,
+    pub scenario: Scenario,
+    pub input_source: String,
+    pub expected: String,
+    pub observed: String,
+    pub detail: String,
+    pub observed_digest: String,
+    pub signature: serde_json::Value,
+    pub minimised: serde_json::Value,
+}
+
+pub fn mode_for(prop: &str) -> &'static str {
+    match prop {
+        "C07" => "wild",
+        "C14" => "map",
+        _ => "strict",
+    }
+}
+
+/// Which rule failures count as violations of `prop`.
+pub fn relevant<'a>(prop: &str, mode: &str, j: &'a Judged) -> Vec<Failure> {
+    j.failures
+        .iter()
+        .filter_map(|f| {
+            let r = f.rule.as_str();
+            match prop {
+                "C02" if r.starts_with("C02") => Some(f.clone()),
+                "C03" if r.starts_with("C03") => Some(f.clone()),
+                "C07" if r.starts_with("C07") => Some(f.clone()),
+                // in map mode the same correspondence rules are C14's
+                "C14" if mode == "map" && (r.starts_with("C02") || r.starts_with("C14")) => {
+                    let rule = match r {
+                        "C02.R1" | "C02.R1v" => "C14.R1",
+                        "C02.R7" => "C14.R2",
+                        x if x.starts_with("C14") => x,
+                        _ => "C14.R2",
+                    };
+                    Some(Failure { rule: rule.to_string(), detail: f.detail.clone() })
+                }
+                "C14" if mode == "map" && r.starts_with("C07") => Some(Failure { rule: "C14.R5".into(), detail: f.detail.clone() }),
+                _ => None,
+            }
+        })
+        .collect()
+}
+
+pub fn outcome_digest(j: &Judged) -> u64 {
+    let mut f = Fnv::new();
+    f.str(&serde_json::to_string(&j.outcome).expect("outcome serialises"));
+    f.str(&serde_json::to_string(&j.log).expect("log serialises"));
+    f.str(&serde_json::to_string(&j.failures).expect("failures serialise"));
+    f.finish()
+}
+
+pub fn scenario_digest(sc: &Scenario) -> u64 {
+    Fnv::of_str(&serde_json::to_string(sc).expect("scenario serialises"))
+}
+
+fn record_stats(st: &mut Stats, sc: &Scenario, j: &Judged) {
+    st.inc("runs");
+    st.add("steps", j.seam_calls as u64);
+    st.inc(&format!("receiver/{}", sc.receiver));
+    st.inc(&format!("entry/{:?}", sc.entry));
+    st.inc(match &j.outcome {
+        Outcome::Ok(_) => "outcome/ok",
+        Outcome::Err { .. } => "outcome/err",
+        Outcome::SimPanic(_) => "outcome/injected_panic_reached_caller",
+        Outcome::Panic(_) => "outcome/other_panic",
+    });
+    let fired_keys: std::collections::BTreeSet<&str> = j.fired.iter().map(|(k, _)| k.as_str()).collect();
+    for (_, kind) in &j.fired {
+        st.inc(&format!("fault_fired/{}", kind));
+    }
+    for (k, f) in &sc.env.faults {
+        if !fired_keys.contains(k.label().as_str()) {
+            st.inc(&format!("fault_configured_not_fired/{}", f.kind_name()));
+        }
+    }
+    for m in &j.mistakes {
+        st.inc(&format!("mistake/{}", m));
+    }
+    if !sc.env.none_some.is_empty() {
+        st.inc("env/from_none_answers_some");
+    }
+    for c in &j.log {
+        st.inc(&format!("site/{}:{}", c.site, c.hook));
+    }
+    let nontrivial = !j.fired.is_empty() || !j.mistakes.is_empty();
+    if nontrivial {
+        st.inc("nontrivial_runs");
+        st.distinct("scenario_nontrivial", scenario_digest(sc));
+    } else {
+        st.inc("fault_free_mistake_free_runs");
+    }
+    let mut seq = Fnv::new();
+    for c in &j.log {
+        seq.u64(c.site as u64).str(&c.hook).str(c.fired.as_deref().unwrap_or("-"));
+    }
+    st.distinct("seam_call_sequence", seq.finish());
+    let mut mk: Vec<&str> = j.mistakes.iter().map(|s| s.as_str()).collect();
+    mk.sort();
+    mk.dedup();
+    let mut fk: Vec<&str> = j.fired.iter().map(|(_, k)| k.as_str()).collect();
+    fk.sort();
+    fk.dedup();
+    let mut t = Fnv::new();
+    t.str(&sc.receiver).str(&mk.join(",")).str(&fk.join(","));
+    st.distinct("receiver_x_mistake_kinds_x_fault_kinds", t.finish());
+    // reach probes (C07.R5)
+    let err_fault = j.fired.iter().any(|(_, k)| k != "Panic");
+    if err_fault && matches!(j.outcome, Outcome::Err { .. }) {
+        st.inc("probe/conversion_failed_then_parse_returned_err");
+    }
+    if matches!(j.outcome, Outcome::SimPanic(_)) {
+        st.inc("probe/panic_unwound_through_parser");
+        if err_fault || !j.mistakes.is_empty() {
+            st.inc("probe/panic_fired_while_errors_were_pending");
+        }
+    }
+    if j.mistakes.iter().any(|m| m == "malformed_list") {
+        st.inc("probe/parse_meta_list_failed");
+    }
+    for m in &j.mistakes {
+        if m.starts_with("probe:") {
+            st.inc(&format!("probe/{}", &m[6..]));
+        }
+    }
+}
+
+pub fn signature_of(sc: &Scenario, f: &Failure) -> serde_json::Value {
+    // a coarse, stable description of what failed: rule + receiver + the kind of leaf concerned
+    let kind = f.detail.rsplit_once("(kind ").map(|(_, k)| k.trim_end_matches(')').to_string()).unwrap_or_default();
+    json!({"rule": f.rule, "receiver": sc.receiver, "leaf_kind": kind})
+}
+
+pub fn make_replay(prop: &str, sc_orig: &Scenario, sc_min: &Scenario, f: &Failure, seed: Option<u64>, index: Option<String>, steps: usize) -> Replay {
     let recvs = schema::recvs();
-    let mut bad = 0;
-    for i in 0..n {
-        let sc = gen::generate(run_seed(seed, i), mode, recvs);
-        let j = run::run(&sc, recvs);
-        if let Some(h) = &j.harness_error { println!("#{} HARNESS {}", i, h); bad += 1; continue; }
-        if !j.failures.is_empty() {
-            bad += 1;
-            if bad <= 12 {
-                println!("#{} {} {:?}\n  src: {}\n  env: {:?}\n  exp: {}\n  obs: {:?}", i, sc.receiver, sc.entry, j.source.trim(), sc.env.faults, j.expected, j.outcome);
-                for f in &j.failures { println!("  FAIL {} {}", f.rule, f.detail); }
+    let j = run::run(sc_min, recvs);
+    let rel = relevant(prop, &sc_min.mode, &j);
+    let f2 = rel.iter().find(|x| x.rule == f.rule).or(rel.first()).cloned().unwrap_or_else(|| f.clone());
+    Replay {
+        format: 1,
+        property: prop.to_string(),
+        rule: f2.rule.clone(),
+        sim: "parse".into(),
+        verif_seed: seed,
+        run_index: index,
+        scenario: sc_min.clone(),
+        input_source: j.source.clone(),
+        expected: j.expected.clone(),
+        observed: format!("{:?}", j.outcome),
+        detail: f2.detail.clone(),
+        observed_digest: format!("{:016x}", outcome_digest(&j)),
+        signature: signature_of(sc_min, &f2),
+        minimised: json!({
+            "from": minimise::size(sc_orig),
+            "to": minimise::size(sc_min),
+            "steps": steps
+        }),
+    }
+}
+
+fn arg<'a>(args: &'a [String], name: &str) -> Option<&'a str> {
+    args.iter().position(|a| a == name).and_then(|i| args.get(i + 1)).map(|s| s.as_str())
+}
+
+struct Acc {
+    stats: Stats,
+    failures: Vec<(u64, Failure, Scenario)>,
+    harness: Vec<(u64, String)>,
+    digests: Vec<(u64, u64, u64, bool)>,
+    samples: BTreeMap<&'static str, (u64, serde_json::Value)>,
+}
+
+fn sample_kind(j: &Judged) -> &'static str {
+    if matches!(j.outcome, Outcome::SimPanic(_)) {
+        "with_injected_panic"
+    } else if j.fired.len() >= 2 {
+        "multi_fault"
+    } else if j.fired.is_empty() && j.mistakes.is_empty() {
+        "fault_free_mistake_free"
+    } else {
+        "other"
+    }
+}
+
+fn cmd_batch(args: &[String], sweep_mode: bool) -> i32 {
+    run::install_panic_hook();
+    let prop = arg(args, "--prop").unwrap_or("C02").to_string();
+    let mode = mode_for(&prop);
+    let seed: u64 = arg(args, "--seed").map(|s| s.parse().expect("--seed")).unwrap_or(1);
+    let start: u64 = arg(args, "--start").map(|s| s.parse().expect("--start")).unwrap_or(0);
+    let workers: usize = arg(args, "--workers").map(|s| s.parse().expect("--workers")).unwrap_or(16);
+    let max_failures: usize = arg(args, "--max-failures").map(|s| s.parse().expect("--max-failures")).unwrap_or(3);
+    let want_digests = arg(args, "--digests").map(|s| s.to_string());
+    let recvs = schema::recvs();
+    let sweep_cases: Vec<Scenario> = if sweep_mode { sweep::cases(mode, recvs) } else { Vec::new() };
+    let count: u64 = if sweep_mode { sweep_cases.len() as u64 } else { arg(args, "--count").map(|s| s.parse().expect("--count")).unwrap_or(1000) };
+    let progress = arg(args, "--progress").map(|p| std::fs::OpenOptions::new().create(true).write(true).truncate(true).open(p).expect("progress file"));
+    let cfg = PoolCfg { workers, stack_bytes: 64 << 20, retire_after: 10_000, chunk: 32, progress };
+    let stop = AtomicBool::new(false);
+    let nfail = Mutex::new(0usize);
+    let t0 = std::time::Instant::now();
+    let accs = run_parallel(
+        start,
+        count,
+        &cfg,
+        &stop,
+        || Acc { stats: Stats::new(), failures: Vec::new(), harness: Vec::new(), digests: Vec::new(), samples: BTreeMap::new() },
+        |i, acc: &mut Acc| {
+            let sc = if sweep_mode { sweep_cases[i as usize].clone() } else { gen::generate(run_seed(seed, i), mode, recvs) };
+            let j = run::run(&sc, recvs);
+            if let Some(h) = &j.harness_error {
+                acc.harness.push((i, h.clone()));
+                stop.store(true, Ordering::Relaxed);
+                return;
+            }
+            record_stats(&mut acc.stats, &sc, &j);
+            if want_digests.is_some() {
+                acc.digests.push((i, scenario_digest(&sc), outcome_digest(&j), !j.failures.is_empty()));
+            }
+            let kind = sample_kind(&j);
+            match acc.samples.get(kind) {
+                Some((k, _)) if *k <= i => {}
+                _ => {
+                    acc.samples.insert(
+                        kind,
+                        (i, json!({"index": i, "receiver": sc.receiver, "entry": sc.entry, "input_source": j.source, "faults": sc.env.faults, "expected": j.expected, "observed": format!("{:?}", j.outcome).chars().take(600).collect::<String>(), "seam_calls": j.log.len()})),
+                    );
+                }
+            }
+            let rel = relevant(&prop, mode, &j);
+            let others = j.failures.len() - j.failures.iter().filter(|f| rel.iter().any(|r| r.detail == f.detail)).count();
+            if others > 0 {
+                acc.stats.add("other_property_rule_failures", others as u64);
+            }
+            if let Some(f) = rel.into_iter().next() {
+                acc.failures.push((i, f, sc));
+                let mut n = nfail.lock().unwrap();
+                *n += 1;
+                if *n >= max_failures {
+                    stop.store(true, Ordering::Relaxed);
+                }
+            }
+        },
+    );
+    let mut stats = Stats::new();
+    let mut failures = Vec::new();
+    let mut harness = Vec::new();
+    let mut digests = Vec::new();
+    let mut samples: BTreeMap<&'static str, (u64, serde_json::Value)> = BTreeMap::new();
+    for a in accs {
+        stats.merge(a.stats);
+        failures.extend(a.failures);
+        harness.extend(a.harness);
+        digests.extend(a.digests);
+        for (k, (i, v)) in a.samples {
+            match samples.get(k) {
+                Some((j, _)) if *j <= i => {}
+                _ => {
+                    samples.insert(k, (i, v));
+                }
             }
         }
     }
-    println!("{} / {} runs with failures", bad, n);
+    failures.sort_by_key(|f| f.0);
+    harness.sort();
+    if let Some(path) = want_digests {
+        digests.sort();
+        let mut f = std::io::BufWriter::new(std::fs::File::create(path).expect("digest file"));
+        for (i, s, t, bad) in digests {
+            writeln!(f, "{} {:016x} {:016x} {}", i, s, t, bad as u8).unwrap();
+        }
+    }
+    // one replay per distinct signature, minimised in-process
+    let mut replays: Vec<Replay> = Vec::new();
+    let mut seen_sig = std::collections::BTreeSet::new();
+    for (i, f, sc) in failures.iter() {
+        let sig = signature_of(sc, f).to_string();
+        if !seen_sig.insert(sig) || replays.len() >= max_failures {
+            continue;
+        }
+        let (min, steps) = minimise::minimise(&prop, sc, &f.rule, 1500);
+        let idx = if sweep_mode { format!("sweep{}", i) } else { i.to_string() };
+        replays.push(make_replay(&prop, sc, &min, f, Some(seed), Some(idx), steps));
+    }
+    let distinct: BTreeMap<String, u64> = stats.sets.iter().map(|(k, v)| (k.clone(), v.len() as u64)).collect();
+    let out = json!({
+        "sim": "parse", "prop": prop, "mode": if sweep_mode { "sweep" } else { "batch" }, "gen_mode": mode,
+        "seed": seed, "start": start, "count": count,
+        "runs": stats.get("runs"),
+        "completed": !stop.load(Ordering::Relaxed),
+        "wall_s": t0.elapsed().as_secs_f64(),
+        "counters": stats.counters,
+        "distinct": distinct,
+        "failures": failures.len(),
+        "harness_errors": harness.iter().take(3).map(|(i, h)| json!({"index": i, "error": h})).collect::<Vec<_>>(),
+        "replays": replays,
+        "samples": samples.values().map(|(_, v)| v.clone()).collect::<Vec<_>>(),
+    });
+    println!("{}", out);
+    if !harness.is_empty() {
+        2
+    } else if failures.is_empty() {
+        0
+    } else {
+        1
+    }
+}
+
+fn cmd_replay(path: &str) -> i32 {
+    run::install_panic_hook();
+    let text = std::fs::read_to_string(path).expect("replay file readable");
+    let rp: Replay = serde_json::from_str(&text).expect("replay file parses");
+    let recvs = schema::recvs();
+    let j = run::run(&rp.scenario, recvs);
+    if let Some(h) = j.harness_error {
+        println!("HARNESS-ERROR: {}", h);
+        return 2;
+    }
+    let rel = relevant(&rp.property, &rp.scenario.mode, &j);
+    if rel.is_empty() {
+        println!("no violation: scenario of {} satisfies every {} rule on this tree", path, rp.property);
+        return 0;
+    }
+    for f in &rel {
+        println!("rule={} {}", f.rule, f.detail);
+    }
+    let same = rel.iter().any(|f| f.rule == rp.rule) && format!("{:016x}", outcome_digest(&j)) == rp.observed_digest;
+    println!("input: {}", j.source.trim());
+    println!("reproduced_exactly={}", same);
+    println!("VIOLATION property={} replay={}", rp.property, path);
+    1
+}
+
+fn cmd_one(args: &[String]) -> i32 {
+    run::install_panic_hook();
+    let prop = arg(args, "--prop").unwrap_or("C02").to_string();
+    let seed: u64 = arg(args, "--seed").map(|s| s.parse().expect("--seed")).unwrap_or(1);
+    let index: u64 = arg(args, "--index").map(|s| s.parse().expect("--index")).unwrap_or(0);
+    let recvs = schema::recvs();
+    let sc = gen::generate(run_seed(seed, index), mode_for(&prop), recvs);
+    let j = run::run(&sc, recvs);
+    println!("{}", serde_json::to_string_pretty(&json!({"scenario": sc, "judged": j})).unwrap());
+    (!relevant(&prop, &sc.mode, &j).is_empty()) as i32
+}
+
+fn cmd_check_stdin(prop: &str) -> i32 {
+    run::install_panic_hook();
+    let mut s = String::new();
+    std::io::Read::read_to_string(&mut std::io::stdin(), &mut s).expect("stdin");
+    let sc: Scenario = serde_json::from_str(&s).expect("scenario parses");
+    let j = run::run(&sc, schema::recvs());
+    let rel = relevant(prop, &sc.mode, &j);
+    println!("{}", json!({"rule": rel.first().map(|f| f.rule.clone())}));
+    0
+}
+
+fn main() {
+    let args: Vec<String> = std::env::args().collect();
+    let code = match args.get(1).map(|s| s.as_str()) {
+        Some("batch") => cmd_batch(&args, false),
+        Some("sweep") => cmd_batch(&args, true),
+        Some("one") => cmd_one(&args),
+        Some("replay") => cmd_replay(args.get(2).expect("replay FILE")),
+        Some("check-stdin") => cmd_check_stdin(args.get(2).map(|s| s.as_str()).unwrap_or("C07")),
+        _ => {
+            eprintln!("usage: parsesim batch|sweep|one|replay ...");
+            2
+        }
+    };
+    std::process::exit(code);
 }
